@@ -772,6 +772,11 @@ func (s *sender) handleRcvdSegment(seg *segment) {
 	if rtx {
 		// tcp拥塞控制：快速重传
 		s.resendSegment()
+		// The earliest unacknowledged segment has just been transmitted
+		// again: restart the retransmission timer (sendData below re-arms
+		// it), otherwise the timer armed for the original transmission can
+		// fire right after this fast retransmission.
+		s.resendTimer.disable()
 	}
 
 	// Send more data now that some of the pending data has been ack'd, or
